@@ -4,7 +4,8 @@
 //
 // Every script builds a REAL exporter with the public helper (exporterhelper.NewLogs/NewTraces/NewMetrics +
 // WithQueue / WithRetry / WithTimeout), sends tagged payloads, answers the export calls with scripted outcomes
-// (ok | perm | transient | partial:k | slow = returns only after shutdown was requested) and shuts the exporter
+// (ok | perm | transient | partial:k | slow = returns only after shutdown was requested | deaf = ignores its context and
+// answers ok well after the per-attempt timeout) and shuts the exporter
 // down at the scripted moment.  Recorded, under one mutex: offer_end, push_start{items}, push_end{outcome},
 // shutdown_start/end, pushes after shutdown returned, goroutines left, the item counters
 // (sent / send_failed / enqueue_failed) from a manual metric reader and the items still stored (persistent queue).
@@ -56,6 +57,7 @@ type Cfg struct {
 	Retry     bool     `json:"retry"`
 	RetryFast bool     `json:"retry_fast"` // true: 2 ms back-off (retries happen); false: 1 h (only shutdown ends the wait)
 	CloseErr  bool     `json:"close_err"`  // persistent: the storage client's Close reports an error (Shutdown then returns one)
+	TimeoutMs int      `json:"timeout_ms"` // per-attempt timeout (0 = none); "slow" / "deaf" export calls ignore their context and outlast it
 }
 
 type Step struct {
@@ -215,6 +217,10 @@ func (r *runner) answer(tags []string) (string, []string) {
 	r.mu.Unlock()
 	var remaining []string
 	switch {
+	case out == "deaf":
+		// a backend that does not look at its context and answers (successfully) long after the per-attempt timeout
+		time.Sleep(time.Duration(4*r.sc.Cfg.TimeoutMs+60) * time.Millisecond)
+		out = "ok"
 	case out == "slow":
 		select {
 		case <-r.shutReq:
@@ -344,7 +350,7 @@ func runScript(sc Script, serial *sync.Mutex) []Ev {
 	set := exporter.Settings{ID: component.MustNewID("verif"), TelemetrySettings: tel.NewTelemetrySettings(),
 		BuildInfo: component.NewDefaultBuildInfo()}
 	var opts []exporterhelper.Option
-	opts = append(opts, exporterhelper.WithTimeout(exporterhelper.TimeoutConfig{Timeout: 0}))
+	opts = append(opts, exporterhelper.WithTimeout(exporterhelper.TimeoutConfig{Timeout: time.Duration(cfg.TimeoutMs) * time.Millisecond}))
 	// the user's own start / shutdown functions: the export function must only run inside that lifetime
 	opts = append(opts, exporterhelper.WithStart(func(context.Context, component.Host) error {
 		r.log(Ev{Ev: "ustart_end"})
